@@ -9,6 +9,11 @@ timestamps absent or a list of symbolic length.  Conditions:
                    lists or timestamps differ in length or that give neither
                    ustar nor z0; otherwise n_timesteps is the common length (or
                    1); split over the (ustar, mol) list flags for speed;
+  check_count_shapes : the same oracle with the shape space split into cases
+                   (each field scalar or a list of concrete length 1..LMAX,
+                   timestamps absent or of length 0..TSMAX; 6 * 4^4 cases quick) and
+                   the presence flags symbolic, entries concrete - decides changes that
+                   pass the lists through numpy, where symbolic lengths stall;
   check_step     : step i takes the i-th entry of every list and the value of
                    every scalar, the i-th timestamp or else i, z0 iff given;
   check_drivers  : run_bldfm_timeseries and cli.cmd_run call the single run for
@@ -20,8 +25,8 @@ from .. import chrun
 PID = "C16"
 HERE = os.path.dirname(os.path.abspath(__file__))
 TEMPLATE = os.path.join(HERE, "ch", "c16.py")
-CONDITIONS = ["check_count_00", "check_count_01", "check_count_10", "check_count_11", "check_step", "check_drivers"]
-TWINS = ["twin_count", "twin_step", "twin_drivers"]
+CONDITIONS = ["check_count_00", "check_count_01", "check_count_10", "check_count_11", "check_count_shapes", "check_step", "check_drivers"]
+TWINS = ["twin_count", "twin_count_shapes", "twin_step", "twin_drivers"]
 
 
 def main(run):
